@@ -298,7 +298,7 @@ func genC15(g *Gen, tier string, w *bufio.Writer) {
 	per := 220
 	maxLen := 14
 	if tier == "thorough" {
-		per = 6000
+		per = 25000
 		maxLen = 40
 	}
 	intCols := [][]int{{0, 0}, {0, 0, 2}, {0, 0}, {1, 0}, {1, 1}, {0, 1, 2}}
@@ -383,7 +383,7 @@ func genC15(g *Gen, tier string, w *bufio.Writer) {
 		{
 			s = mk(cols, etMode, true)
 			jn := g.Intn(5)
-			js := genChangelog(g, []int{0, 0}, jn, 0, g.Chance(1, 4), g.Chance(1, 10))
+			js := genChangelog(g, []int{0, 0}, jn, 0, g.Chance(1, 2), g.Chance(1, 10))
 			jpred := Pick(g, []string{"EQ V0.0 V1.0", "EQ V0.0 V1.0", "EQ V0.1 V1.1", kv(octosql.NewBoolean(true)), "LT V1.0 V0.0", "AND EQ V0.0 V1.0 LT V0.1 V1.1"})
 			fmt.Fprintf(w, "lookup %s %s ] | %s\n", jpred, srcTokens(g, js, true), srcTokens(g, s, true))
 		}
